@@ -3149,3 +3149,28 @@ Q(name="e2_packet_space_sent_tail_counter", props=["C03", "C12"], func=r"spaces\
   functions=["PacketSpace::sent"], pre=lambda c: ule(c.inp("*_1.%d" % c.field("connection/spaces.rs", "PacketSpace", "unacked_non_ack_eliciting_tail"), BV64), bv(1 << 32)), post=pss_post,
   bounds="every packet (ack-eliciting or not) and every counter value: `unacked_non_ack_eliciting_tail` - the number of tracked packets nobody is obliged to acknowledge - is reset by an ack-eliciting packet, grows by one with a non-eliciting one, and stays the same when the oldest such packet is forgotten to make room (one out, one in), the forgetting being done on the packet map directly; SentPackets operations opaque",
   replay=("space_sent_tail_native", lambda m: [dict(n=1500)]))
+
+
+# ------------------------------------------------------------------ C04 / C03: header protection is removed only from packets long enough to hold the sample (RFC 9001 5.4.2)
+def dh_post(c, p):
+    st = p.p.state
+    if p.p.outcome != "return":
+        return "true"
+    dec = p.called(r"HeaderKey>::decrypt$")
+    ss = p.called(r"HeaderKey>::sample_size$")
+    if not dec:
+        return eq(c.ex.read_key(st, "_0#discr", I64).t, bv(1))        # too short: an error, the key is never applied
+    if len(dec) != 1 or len(ss) != 1 or dec[0][1][1][0] != "val":
+        return "false"
+    plen = c.inp("*_1.0.1", BV64)               # Cursor<BytesMut>.inner.len
+    pos = c.inp("*_1.1", BV64)                  # Cursor.pos = offset of the packet number
+    need = "(bvadd (bvadd ((_ zero_extend 8) %s) (_ bv4 72)) ((_ zero_extend 8) %s))" % (pos, ss[0][2])
+    # the sample starts 4 bytes after the start of the packet number field and is sample_size bytes long
+    return and_("(bvuge ((_ zero_extend 8) %s) %s)" % (plen, need), eq(dec[0][1][1][1].t, pos))
+
+
+Q(name="e2_decrypt_header_sample_bounds", props=["C04", "C03"], func=r"packet\.rs:\d+:1: \d+:19>::decrypt_header$",
+  allowed_panics=r"attempt to compute|index out of bounds|panic_bounds_check", pure=[r"HeaderKey>::sample_size$"],
+  functions=["PartialDecode::decrypt_header"], pre=lambda c: and_(ule(c.inp("*_1.0.1", BV64), bv(1 << 32)), ule(c.inp("*_1.1", BV64), bv(1 << 32))), post=dh_post,
+  bounds="every packet length and packet-number offset below 2^32, every sample size the header key reports: HeaderKey::decrypt is applied - at the packet-number offset - only to a packet that holds at least pn_offset + 4 + sample_size bytes (where the sample is taken from); anything shorter is an InvalidHeader error before the key sees it, so no truncated datagram can make the key's slicing panic",
+  replay=("packet_truncated_prefixes_native", lambda m: [dict(sample=16), dict(sample=0), dict(sample=20)]))
